@@ -29,6 +29,8 @@ type Actor struct {
 	Kind string `json:"kind"`           // close send encode encodenf encodeelement tokenwriter setdeadline timer peer serve probe
 	API  string `json:"api,omitempty"`  // variant of the entry point (same model kind)
 	Past bool   `json:"past,omitempty"` // setdeadline: a deadline that has already passed
+	Zero bool   `json:"zero,omitempty"` // setdeadline: the zero time (no deadline)
+	For  int    `json:"for,omitempty"`  // timer: index of the setdeadline actor whose deadline passes
 	Ev   *Pev   `json:"ev,omitempty"`   // peer: what it writes
 }
 
